@@ -90,6 +90,8 @@ typedef struct {
   size_t guard;      // guard bytes on each side (>= 4096)
   uint64_t cseed;    // canary seed
   int arena;         // carved from the per-process placement arena (not freed individually)
+  void* map_base;    // placement modes 3-5: the buffer lives in its own mapping (munmap'ed by gb_free)
+  size_t map_len;
 } gbuf_t;
 // allocates `n` user bytes at alignment `align` (power of two >= 8) plus `mis` bytes of
 // misalignment (multiple of 4), with guard bands of at least `guard` bytes on both sides.
@@ -99,7 +101,9 @@ int gb_check(gbuf_t* g, long* where);
 void gb_free(gbuf_t* g);
 // pre-fill the user area with pattern id (0: 0x00, 1: 0xFF, 2: signalling NaN pattern, 3: noise)
 void gb_prefill(gbuf_t* g, int pattern, uint64_t seed);
-void fill_pattern(uint8_t* p, size_t n, int pattern, uint64_t seed);  // the pre-fill patterns, on any region
+void fill_pattern(uint8_t* p, size_t n, int pattern, uint64_t seed);
+// imposes a structure (scaled by 2^32 / run of one value / periodic / zero) on a fresh vector with probability 7/16; returns its kind (0 none)
+int structure_words(rng_t* r, uint64_t* w, uint64_t n, unsigned bits);  // the pre-fill patterns, on any region
 
 // limb vector of int64 (vec_znx): `size` limbs of `n` words with stride `sl` words; the padding
 // words between limbs carry canaries and are poisoned under ASan. Exactly (size-1)*sl+n words.
@@ -136,8 +140,10 @@ uint64_t hash_bytes(const void* p, size_t n, uint64_t h);
 void set_dispatch(int native);
 enum { DISP_GENERIC = 0, DISP_NATIVE = 1, DISP_AVX2_ONLY = 2, DISP_FMA_ONLY = 3, N_DISP = 4 };
 extern const char* const disp_name[N_DISP];
-extern int g_case_place;    // set by case_begin: 0 separate allocations (default), 1 / 2: every guarded buffer of the case is carved from one
-                            // arena at ascending / descending addresses in allocation order, 256 guard bytes apart (relative position of buffers)
+extern int g_case_place;    // set by case_begin: 0 separate allocations (default); 1 / 2: every guarded buffer of the case is carved from one
+                            // arena at ascending / descending addresses in allocation order, 256 guard bytes apart; 3: every buffer ENDS at a page
+                            // boundary followed by an inaccessible page; 4: every buffer STARTS at a page boundary preceded by an inaccessible
+                            // page; 5: every buffer in its own mapping, 64 GiB away from the previous one
 extern int g_case_aligned;  // set by case_begin for a quarter of the cases: all guarded buffers 64-byte aligned
 extern int g_dispatch_native;
 static inline const char* dispatch_name(void) { return disp_name[g_dispatch_native & 3]; }
